@@ -92,6 +92,10 @@ func buildEventQuery(
 		sub = appendSinceQuery(sub, esub.Col("created_at"), f.Since)
 		sub = appendUntilQuery(sub, esub.Col("created_at"), f.Until)
 		sub = appendLimitQuery(sub, f.Limit, maxLimit)
+		if f.Limit != nil && *f.Limit == 0 {
+			// goqu's Limit(0) clears the limit; a filter with limit 0 selects nothing
+			sub = sub.Where(goqu.L("0"))
+		}
 
 		if f.IDs != nil {
 			idBins := make([][]byte, len(f.IDs))
